@@ -253,6 +253,12 @@ impl World {
         for &handle in handles {
             let loc = self.entities.alloc_at(handle);
             if let Some(loc) = loc {
+                // An allocated ID without a row can only have been allocated earlier in this loop
+                assert!(
+                    loc.index != u32::MAX,
+                    "entity ID {} occurs more than once",
+                    handle.id()
+                );
                 if let Some(moved) = unsafe {
                     self.archetypes.archetypes[loc.archetype as usize].remove(loc.index, true)
                 } {
